@@ -40,32 +40,45 @@ def exhaustive(name, kind="c", maxfuncs=1, maxbody=5, maxdepth=2, withviol=False
     return [r], r.exports
 
 
-def render(rec, seed=0, name=None):
+def render(rec, seed=0, name=None, prog_key="prog", speller=None):
     """abstract program -> (file name, text, line map: abstract line index -> first text line)"""
-    sp = Speller(seed)
+    import hashlib
+    sp = speller or Speller(seed)
     kind = rec["kind"]
     name = name or ("test." + kind)
     sp.guard = corpus.guard_of(name)
     sp.syms = ["".join(x) for x in rec.get("syms", [])]
+    sp.used.update(x for x in sp.syms if x)
+    sp.used.add(sp.guard)
     out = []
     linemap = []
-    for ln in rec["prog"]:
-        linemap.append(sum(x.count("\n") for x in out) + 1)
+    prog = rec[prog_key]
+    seen = {}
+    nline = 1
+    for idx, ln in enumerate(prog):
+        linemap.append(nline)
+        key = hashlib.sha1(json.dumps(ln, sort_keys=True).encode()).hexdigest()
+        occ = seen.get(key, 0)
+        seen[key] = occ + 1
+        salt = f"{key}:{occ}"
         if ln["k"] == "header42":
-            out.append(corpus.header42(name))
+            t = corpus.header42(name)
         elif ln["k"] == "empty":
-            out.append("\n")
+            t = "\n"
         elif ln["k"] == "h_slashslash":
-            t = sp.render(ln["items"])
-            out.append("// " + t[3:-3].rstrip() + "\n")
+            x = sp.render(ln["items"], salt)
+            t = "// " + x[3:-3].rstrip() + "\n"
         elif ln["k"] == "h_oneblock":
-            t = sp.render(ln["items"])
-            j = [x["k"] for x in rec["prog"]].index("h_oneblock")
-            n = sum(1 for x in rec["prog"] if x["k"] == "h_oneblock")
-            i = len(linemap) - 1 - j
-            out.append(("/* " if i == 0 else "   ") + t[3:-3] + (" */" if i == n - 1 else "   ").rstrip() + "\n")
+            x = sp.render(ln["items"], salt)
+            j = [y["k"] for y in prog].index("h_oneblock")
+            n = sum(1 for y in prog if y["k"] == "h_oneblock")
+            i = idx - j
+            t = ("/* " if i == 0 else "   ") + x[3:-3] + (" */" if i == n - 1 else "   ").rstrip() + "\n"
         elif ln["k"] == "comment" and ln["st"] == "IsComment3":
-            out.append("/*\n** " + sp.text(18) + "\n*/\n")
+            sp._salt, sp._pos = salt, 0
+            t = "/*\n** " + sp.text(18) + "\n*/\n"
         else:
-            out.append(sp.render(ln["items"]) + "\n")
+            t = sp.render(ln["items"], salt) + "\n"
+        out.append(t)
+        nline += t.count("\n")
     return name, "".join(out), linemap
